@@ -65,12 +65,12 @@ def gen_ops(rng, tier):
         ops.append("tjcrop %d %d %d %d %d %d %d %d" % (jw, jh, ss, sfi, x, y, w, h))
     ops.append("tjcrop 64 64 0 8 0 0 0 0")
     for i in range(2500 if big else 420):
-        ss = rng.choice([0, 1, 2, 2, 4, 5, 6, 3, 42, 24, 31, 13, 44, 22, 32])
+        ss = rng.choice([0, 1, 2, 2, 4, 5, 6, 3, 42, 24, 31, 13, 44, 22, 32, 1142, 2142, 1242, 1121])   # >= 1000: luma h x v, chroma 1 x v
         w = rng.choice([17, 33, 40, 48, 65]); h = rng.choice([17, 33, 40, 48, 70])
         prog = int(rng.random() < .25); arith = int(rng.random() < .15)
         snum = rng.choice([8, 8, 8, 4, 2, 1, 3, 5, 6, 7, 9, 12, 16])
         fancy = rng.randint(0, 1); dct = int(rng.random() < .2)
-        mcuh = {0: 8, 1: 8, 2: 16, 3: 8, 4: 16, 5: 8, 6: 32}[ss] if ss < 10 else 8 * (ss % 10)
+        mcuh = {0: 8, 1: 8, 2: 16, 3: 8, 4: 16, 5: 8, 6: 32}[ss] if ss < 10 else 8 * (ss % 10) if ss < 1000 else 8 * ((ss // 10) % 10)
         lines = max(1, mcuh * snum // 8)
         oh = (h * snum + 7) // 8
         calls = history(rng, lines, oh)
@@ -88,11 +88,15 @@ def gen_ops(rng, tier):
         prog = int(rng.random() < .3)
         snum = rng.choice([8, 8, 4, 2, 1, 3, 5, 6, 7, 9, 12, 16])
         m = rng.random()
-        fancy, ycc = (0, 1) if m < .35 else (1, rng.randint(0, 1)) if m < .55 else (0, 0)
+        fancy, ycc = (0, 1) if m < .3 else (1, rng.randint(0, 1)) if m < .6 else (0, 0)
+        if fancy == 1 and rng.random() < .6:
+            ss = rng.choice([2, 2, 4]); snum = rng.choice([8, 8, 9, 12, 16, snum])          # where context rows are needed
         if (fancy, ycc) == (0, 0) and rng.random() < .7:
             ss = rng.choice([1, 2, 2, 2]); snum = rng.choice([8, 8, 9, 12, 16, snum])       # where the merged upsampler is used
         # the upsampler jdmaster.c use_merged_upsample() is expected to pick (the executor answers "skip" if it picked the other one)
         upm = int(fancy == 0 and ycc == 0 and (ss == 1 or (ss == 2 and snum >= 8)))
+        if fancy == 1 and snum > 1 and ((ss == 2 and snum >= 8) or ss == 4):
+            upm = 2                                                                     # context rows (fancy h2v2 / h1v2 upsampling)
         mcuh = {0: 8, 1: 8, 2: 16, 3: 8, 4: 16, 5: 8, 6: 32}[ss]
         oh = (h * snum + 7) // 8
         calls = history(rng, max(1, mcuh * snum // 8), oh)
@@ -136,7 +140,8 @@ def gen_ops(rng, tier):
         ops.append("smoothhist %d %d %d %d 1 %d %d %d 0 %d %d %d %s" % (cut, ss, w, h, arith, snum, fancy, cx, cw, rng.randrange(1 << 20), " ".join(calls)))
     ops.append("smoothhist 300 0 40 40 1 0 8 1 0 12 26 628569 r200")
     # the minimised failing histories of the defects repaired in /repo (corpus)
-    ops += ["skiphist 0 32 32 0 0 8 1 0 0 0 5 m0 s8 r4", "skiphist 0 32 32 1 0 8 1 0 0 0 5 r8 m0 s9 r4",
+    ops += ["skiphist 1142 40 100 0 0 8 1 0 0 0 5 r29 s40 r10", "skiphist 1142 40 100 1 0 8 1 0 0 0 5 r29 s40 r10",
+            "skiphist 0 32 32 0 0 8 1 0 0 0 5 m0 s8 r4", "skiphist 0 32 32 1 0 8 1 0 0 0 5 r8 m0 s9 r4",
             "skiphist 0 40 40 0 0 8 1 0 0 0 5 s7 s1 r3", "skiphist 2 40 40 0 0 8 0 0 0 0 5 r1 s20 r5",
             "skiphist 2 40 40 0 0 8 0 0 0 0 5 r3 s20 r5"]
     return ops
